@@ -10,8 +10,9 @@ prop('C06', extra_modules=['Rounding'], families=[dict(name='history', quick=400
                  'every step checked against that step\'s matrix in exact rationals (identity within the bound / exactly on rounding-free steps, bijections, wfSC, multiplier bound, residual bound for every solve), '
                  'bit mirror of [sdcz]pivotL on every pivot event including usepr = 1, byte comparison of L, U, perms, etree, R, C, equed, A around every FACTORED call, '
                  'and exact replay of the history through stepCall on rounding-free steps (perm_r, L, U, keep/abandon decision).'),
-     level_note=('Theorems are in exact arithmetic at the specification level (L and U as determined by column order and pivot sequence): the re-adoption and growth of the L/U storage, supernodes and panels have no '
-                 'counterpart in the model and are tied by the correspondence harness only (ASan + exact/bounded output comparison), as is wfSC of the returned storage. That the solve phase gstrs actually solves '
+     level_note=('Theorems are in exact arithmetic at the specification level (L and U as determined by column order and pivot sequence): supernodes and panels have no '
+                 'counterpart in the history model and are tied by the correspondence harness only (ASan + exact/bounded output comparison), as is wfSC of the returned storage; the re-adoption and growth of the L/U storage '
+                 'is modelled and proved in C07/C08 (Slu.Mem.memInitReuse) and replayed on these histories (storage: clauses: allocator state on entry, at the first pivot call and on return of every factoring call). That the solve phase gstrs actually solves '
                  'the system is the subject of C01/C05; here the solve output is proved to be the gstrs of the factors held (and checked by the factor-derived residual bound on the implementation). '
                  'Column ordering / elimination tree and the equilibration outcome are oracle inputs of the model (C10, C11); the theorems hold for every value of them. Rounding constants g(k) are cited, not proved.'),
      technique='Lean 4 proof (state-machine induction over call histories on top of the LU invariant proved for arbitrary reuse state) + differential history harness with per-step exact-rational oracles and pivot-event bit mirror',
